@@ -18,6 +18,7 @@ import (
 	"github.com/sarchlab/akita/v4/simulation"
 	"github.com/sarchlab/akita/v4/tracing"
 	"github.com/sarchlab/mgpusim/v4/amd/driver"
+	"github.com/sarchlab/mgpusim/v4/amd/samples/runner/emusystem"
 	"github.com/sarchlab/mgpusim/v4/amd/samples/runner/timingconfig"
 )
 
@@ -42,6 +43,8 @@ type Scenario struct {
 	Progs [][]Op `json:"progs"`
 	Order []int  `json:"order"`
 	Drain string `json:"drain"` // seq | par | rev
+	Ctx   []int  `json:"ctx"`   // context (address space) of every queue, 1-based; default: one context
+	Emu   bool   `json:"emu"`   // functional emulation platform instead of the timing platform
 }
 
 type opRef struct{ q, i int }
@@ -63,6 +66,8 @@ type recorder struct {
 	gpuOf   map[sim.RemotePort]int
 	doneIdx map[opRef]int // index of the OpDone event (obs filled in later)
 	opened  map[opRef]bool
+	emu     bool
+	emuCopy map[int]int
 	progs   [][]Op
 }
 
@@ -71,8 +76,26 @@ func (r *recorder) emit(e map[string]interface{}) int {
 	return len(r.events) - 1
 }
 
+// closeEmuCopy: the emulation platform's copy middleware moves the data on the storage while it processes the
+// command and dequeues it without an end task; the copy is over at the latest when the queue starts its next command
+// (or when the run ends).
+func (r *recorder) closeEmuCopy(q int) {
+	if i, ok := r.emuCopy[q]; ok {
+		delete(r.emuCopy, q)
+		o := opRef{q, i}
+		r.emit(map[string]interface{}{"e": "Data", "q": q, "i": i})
+		r.doneIdx[o] = r.emit(map[string]interface{}{"e": "OpDone", "q": q, "i": i, "obs": -1})
+	}
+}
+
 func (r *recorder) open(o opRef) {
 	if !r.opened[o] {
+		if r.emu {
+			r.closeEmuCopy(o.q)
+			if r.progs[o.q-1][o.i-1].K != "d2d" {
+				r.emuCopy[o.q] = o.i
+			}
+		}
 		r.opened[o] = true
 		r.emit(map[string]interface{}{"e": "OpStart", "q": o.q, "i": o.i})
 	}
@@ -146,6 +169,11 @@ func (r *recorder) EndTask(task tracing.Task) {
 			r.emit(map[string]interface{}{"e": "FlushAck", "q": o.q, "g": r.reqGPU[task.ID]})
 		case "*protocol.LaunchKernelReq":
 			r.emit(map[string]interface{}{"e": "KDone", "q": o.q, "i": o.i})
+			if r.emu {
+				// the staging copies of a launch have no end task on the emulation platform: the operation is
+				// over when its launch request is answered
+				r.doneIdx[o] = r.emit(map[string]interface{}{"e": "OpDone", "q": o.q, "i": o.i, "obs": -1})
+			}
 		case "*protocol.MemCopyH2DReq", "*protocol.MemCopyD2HReq":
 			if op.K != "d2d" {
 				// the parent command id is not in the end notification: find it through the operation (one command)
@@ -168,7 +196,7 @@ func (r *recorder) EndTask(task tracing.Task) {
 			return
 		}
 		r.ended[o]++
-		if r.ended[o] == r.nCmd[o] {
+		if r.ended[o] == r.nCmd[o] && !r.emu {
 			r.doneIdx[o] = r.emit(map[string]interface{}{"e": "OpDone", "q": o.q, "i": o.i, "obs": -1})
 		}
 	}
@@ -212,30 +240,47 @@ func gen() int64 {
 
 func runScenario(sc Scenario, out *json.Encoder, nqmax int) (status string) {
 	s := simulation.MakeBuilder().WithoutMonitoring().Build()
-	timingconfig.MakeBuilder().WithSimulation(s).WithNumGPUs(sc.NG).Build()
+	if sc.Emu {
+		emusystem.MakeBuilder().WithSimulation(s).WithNumGPUs(sc.NG).Build()
+	} else {
+		timingconfig.MakeBuilder().WithSimulation(s).WithNumGPUs(sc.NG).Build()
+	}
 	d := s.GetComponentByName("Driver").(*driver.Driver)
 	rec := &recorder{lo: map[opRef]int64{}, hi: map[opRef]int64{}, cmdOp: map[string]opRef{}, cmdKind: map[string]string{},
 		nCmd: map[opRef]int{}, started: map[opRef]int{}, ended: map[opRef]int{}, reqOp: map[string]opRef{},
 		reqWhat: map[string]string{}, reqGPU: map[string]int{}, dataOut: map[string]int{}, gpuOf: map[sim.RemotePort]int{},
-		doneIdx: map[opRef]int{}, opened: map[opRef]bool{}, progs: sc.Progs}
+		doneIdx: map[opRef]int{}, opened: map[opRef]bool{}, progs: sc.Progs, emu: sc.Emu, emuCopy: map[int]int{}}
 	for i, p := range d.GPUs {
 		rec.gpuOf[p.AsRemote()] = i + 1
 	}
 	d.Run()
-	ctx := d.Init()
+	// contexts: every context is its own address space (PID); contexts with the same allocation history use the
+	// same virtual addresses
+	ctxs := map[int]*driver.Context{}
+	ctxOf := func(q int) *driver.Context {
+		c := 1
+		if len(sc.Ctx) >= q {
+			c = sc.Ctx[q-1]
+		}
+		if ctxs[c] == nil {
+			ctxs[c] = d.Init()
+		}
+		return ctxs[c]
+	}
 
 	bufs := make([]driver.Ptr, 2*sc.NQ+1)
 	for b := 1; b <= 2*sc.NQ; b++ {
+		ctx := ctxOf((b + 1) / 2)
 		d.SelectGPU(ctx, sc.Home[b-1])
 		bufs[b] = d.AllocateMemory(ctx, uint64(sc.Len[(b-1)/2]*4))
 	}
 	for b := 1; b <= 2*sc.NQ; b++ {
-		d.MemCopyH2D(ctx, bufs[b], fill(sc.Len[(b-1)/2], 100+b))
+		d.MemCopyH2D(ctxOf((b+1)/2), bufs[b], fill(sc.Len[(b-1)/2], 100+b))
 	}
 	queues := make([]*driver.CommandQueue, sc.NQ+1)
 	for q := 1; q <= sc.NQ; q++ {
-		d.SelectGPU(ctx, sc.Gpu[q-1])
-		queues[q] = d.CreateCommandQueue(ctx)
+		d.SelectGPU(ctxOf(q), sc.Gpu[q-1])
+		queues[q] = d.CreateCommandQueue(ctxOf(q))
 	}
 	waitIdle(d)
 	tracing.CollectTrace(d, rec)
@@ -245,7 +290,14 @@ func runScenario(sc Scenario, out *json.Encoder, nqmax int) (status string) {
 	for len(padded) < nqmax {
 		padded = append(padded, []Op{})
 	}
-	rec.emit(map[string]interface{}{"e": "Reset", "name": sc.Name, "progs": padded})
+	cx := make([]int, nqmax)
+	for q := range cx {
+		cx[q] = 1
+		if q < len(sc.Ctx) {
+			cx[q] = sc.Ctx[q]
+		}
+	}
+	rec.emit(map[string]interface{}{"e": "Reset", "name": sc.Name, "progs": padded, "ctx": cx})
 	rec.mu.Unlock()
 
 	next := make([]int, sc.NQ+1)
@@ -313,6 +365,11 @@ func runScenario(sc Scenario, out *json.Encoder, nqmax int) (status string) {
 		waitIdle(d)
 	}
 	rec.mu.Lock()
+	if status == "ok" {
+		for q := 1; q <= sc.NQ; q++ {
+			rec.closeEmuCopy(q)
+		}
+	}
 	for o, idx := range rec.doneIdx {
 		if a, ok := host[o]; ok {
 			rec.events[idx]["obs"] = uniform(a)
